@@ -109,6 +109,7 @@ type Proxy struct {
 	txSeq     int
 	fault     *Fault
 	fired     bool
+	firedSite string // the repository frames that issued the operation the fault hit
 	snapPath  string
 	snapTaken []string
 	late      []LateUse
@@ -152,6 +153,7 @@ func (p *Proxy) Arm(f *Fault, snapPath string) {
 	p.txSeq = 0
 	p.fault = f
 	p.fired = false
+	p.firedSite = ""
 	p.snapPath = snapPath
 	p.snapTaken = nil
 	p.counts = map[string]int{}
@@ -179,6 +181,13 @@ func (p *Proxy) SnapshotLabels() []string {
 }
 
 // Fired reports whether the armed fault was triggered.
+// FiredSite names the call site (innermost repository frames) of the operation the fault hit.
+func (p *Proxy) FiredSite() string {
+	p.mu.Lock()
+	defer p.mu.Unlock()
+	return p.firedSite
+}
+
 func (p *Proxy) Fired() bool {
 	p.mu.Lock()
 	defer p.mu.Unlock()
@@ -277,6 +286,7 @@ func (p *Proxy) op(tx *txState, bucket, kind string) (err error, forward bool) {
 	}
 	if match {
 		p.fired = true
+		p.firedSite = site()
 	}
 	snapAll := p.snapAll && tx.writable
 	if snapAll {
